@@ -6,6 +6,10 @@ CONSTANTS
   Methods <- FullMethods
   Shardings <- FullShardings
   Codes <- FullCodes
+  MeshDirs <- NoMesh
+  MeshNames <- NoMesh
+  Tables <- NoMesh
+  MeshRewritesInfo = "keepAll"
   CfgSpace <- MidCfg
   MaxLen = 6
   AioForwardsMethod = TRUE
